@@ -694,6 +694,9 @@ func (env *SpecEnv) evalCall(e *SExpr) TV {
 							}
 							return env.callGo(e, x, nil, args)
 						}
+						if pf, ok := vc.prog.Pures[pn.Imported().Path()+"."+e.X.Name]; ok {
+							return env.callPure(e, pf)
+						}
 						env.fail(e, "unknown package function")
 					}
 				}
